@@ -93,5 +93,8 @@ DefaultIsExplicit == \A i, j \in 1..Len(hist) :
                          /\ Eff(hist[i].p) = Eff(hist[j].p)) => outs[i] = outs[j]
 TypeOK == Len(hist) = Len(outs) /\ Len(hist) <= MAXLEN /\ Alphabet \subseteq Calls
 \* hook for the harness: every complete history of the exhaustive enumeration is printed
-Dump == Len(hist) = MAXLEN => PrintT(<<"HIST", [i \in 1..Len(hist) |-> <<hist[i].f, hist[i].p, hist[i].sig>>]>>)
+RECURSIVE Join(_, _)
+Join(h, i) == IF i > Len(h) THEN ""
+              ELSE h[i].f \o "|" \o h[i].p \o "|" \o h[i].sig \o (IF i < Len(h) THEN ";" ELSE "") \o Join(h, i + 1)
+Dump == Len(hist) = MAXLEN => PrintT(<<"HIST", Join(hist, 1)>>)
 =============================================================================
